@@ -38,9 +38,20 @@ def I(name, defs, steps, nthreads, bounds, **kw):
 G1 = ('Future<int32_t> over the model schedulable; worker thread runs the queued run closure at an arbitrary time; getter thread: '
       'get() on its own copy then drops the copy; main drops its reference before or after the join (symbolic), then get() + '
       'address comparison if it still holds one')
+SEQ = ('Future<int32_t> over the model schedulable (plain schedule() may run the closure at once on the caller: symbolic); the '
+       'worker (real OnceFunction::operator() on the queued closure) and two getters run one after the other, worker position '
+       'symbolic (task-granularity interleaving); each getter: get | wait | wait_for(0) | is_ready | wait_until(past) on its own '
+       'copy (symbolic), then optionally get(), then drops the copy; main drops its reference early or late and get()s at the end; '
+       'launch policies and result value symbolic')
 INSTANCES = [
-    I('int_1g', {'VF_RESULT': 0, 'VF_GETTERS': 1}, 2, 3, G1,
-      thorough={'steps': 3, 'checks': RED}),
+    # engine cbmc-seq with one thread and no preemption = sequential execution of the fully inlined harness
+    {'name': 'seq_2g', 'src': 'future.cpp', 'engine': 'cbmc-seq', 'steps': 1, 'nthreads': 1, 'preempts': 0, 'seq_unroll': True,
+     'defs': {'VF_RESULT': 0, 'VF_GETTERS': 2, 'VF_SEQ_ORDER': 1, 'VF_VIA_ONCE': 1, 'VF_INLINE': 1, 'VF_OPS_A': 0x1f, 'VF_OPS_B': 0x1f,
+              'VF_MAIN_GET': 1},
+     'unwind': 2, 'timeout': 1500,
+     'leak_check': True, 'shims': ['moodycamel'], 'devirt': True, 'spin_loops': True, 'tiers': ['quick', 'thorough'], 'bounds': SEQ},
+    I('int_1g', {'VF_RESULT': 0, 'VF_GETTERS': 1, 'VF_MAIN_GET': 0}, 2, 3, G1,
+      thorough={'steps': 3, 'checks': RED, 'defs': {'VF_RESULT': 0, 'VF_GETTERS': 1, 'VF_MAIN_GET': 1}}),
     # two getters: A get(); B one of wait_for(0) / is_ready() / wait_until(past) / wait(), then optionally get()
     I('int_2g', {'VF_RESULT': 0, 'VF_OPS_B': 0x1e}, 2, 4,
       G1 + '; second getter: wait() | wait_for(0) | is_ready() | wait_until(past) (symbolic), then optionally get()',
